@@ -325,6 +325,42 @@ func normalizeValue(val any) any {
 	return val
 }
 
+// objectAsMap returns the exported fields of a struct as a map, so that functions that work on the
+// object as a whole (Sum, Select, RemoveKeysBy..., IsEmpty, ...) treat a struct like the equivalent map.
+// Anything that is not a struct is returned as it was passed.
+func objectAsMap(val any) any {
+	if _, ok := val.(decimal.Decimal); ok {
+		return val
+	}
+
+	v := reflect.ValueOf(val)
+	for v.Kind() == reflect.Pointer || v.Kind() == reflect.Interface {
+		if v.IsNil() {
+			return val
+		}
+		v = v.Elem()
+	}
+
+	if v.Kind() != reflect.Struct {
+		return val
+	}
+
+	if _, ok := v.Interface().(decimal.Decimal); ok {
+		return val
+	}
+
+	st := v.Type()
+	out := make(map[string]any, v.NumField())
+	for fn := 0; fn < v.NumField(); fn++ {
+		if !st.Field(fn).IsExported() {
+			continue
+		}
+		out[st.Field(fn).Name] = v.Field(fn).Interface()
+	}
+
+	return out
+}
+
 // findMapKey returns the key of the map m that matches identName: the key that is exactly equal if there
 // is one, otherwise the smallest of the keys that are equal under case folding, so that the answer does
 // not depend on the iteration order of the map.
